@@ -286,3 +286,110 @@ class simplify_split_align:
 
 
 CONTRACTS = [regex_class_uniformity, translate_numerals, get_date_data_dataflow, simplify_split_align]
+
+
+# white-space / trailing-colon rewritings of the property's family (each maps a template to a template)
+def _ws_map(tpl, rep):
+    return [p.replace(" ", rep) if isinstance(p, str) else p for p in tpl]
+
+
+WS_REWRITINGS = {
+    "lead": lambda t: ["  "] + t,
+    "trail": lambda t: t + [" \t"],
+    "trail-newline": lambda t: t + ["\n"],
+    "pad": lambda t: ["  "] + t + [" \t"],
+    "double": lambda t: _ws_map(t, "  "),
+    "tab": lambda t: _ws_map(t, "\t"),
+    "newline": lambda t: _ws_map(t, "\n"),
+    "nbsp": lambda t: _ws_map(t, "\xa0"),
+    "mixed": lambda t: _ws_map(t, " \xa0\t "),
+    "nbsp-led-run": lambda t: _ws_map(t, "\xa0 "),
+    "colon": lambda t: t + [":"],
+    "colon-trail": lambda t: t + [": "],
+    "colon-newline": lambda t: t + [":\n"],
+    "lead-colon": lambda t: [" "] + t + [":"],
+    "pad-colon-pad": lambda t: ["\t"] + t + [" : "],
+    "nbsp-trail": lambda t: t + ["\xa0"],
+    "colon-space-colon": lambda t: t + [": :"],
+}
+
+WS_TEMPLATES = {
+    "iso-date": [("Y", 4), "-", ("m", 2), "-", ("D", 2)],
+    "iso-hms": [("Y", 4), "-", ("m", 2), "-", ("D", 2), " ", ("H", 2), ":", ("T", 2), ":", ("S", 2)],
+    "rfc2822": ["Tue, ", ("D", 2), " Nov ", ("Y", 4), " ", ("H", 2), ":", ("T", 2), ":", ("S", 2)],
+    "month-d-comma-y": ["Sept. ", ("D", 2), ", ", ("Y", 4)],
+    "d-month-y-12h": [("D", 1), " February ", ("Y", 4), " ", ("I", 2), ":", ("T", 2), " PM"],
+    "numeric-dots": [("D", 2), ".", ("m", 2), ".", ("Y", 4)],
+    "numeric-slashes-time": [("m", 1), "/", ("D", 1), "/", ("Y", 4), " ", ("H", 2), ":", ("T", 2)],
+    "croatian": [("D", 2), ". ", ("m", 2), ". ", ("Y", 4), ". u ", ("H", 2), ":", ("T", 2)],
+    "russian-year-mark": [("D", 1), " марта ", ("Y", 4), " г. ", ("H", 2), ":", ("T", 2)],
+    "relative-ago": [("n", 2), " days ago"],
+    "relative-in": ["in ", ("n", 1), " weeks"],
+    "time-only": [("H", 1), ":", ("T", 2), " pm"],
+    "weekday-on": ["on Monday ", ("D", 2), " May"],
+    "epoch": [("e", 10)],
+    "apostrophe-year": [("D", 2), " Jan \u2019", ("y", 2)],
+    # strings that end in 'on' / carry the 'on:' prefix that RE_SANITIZE_ON removes
+    "ends-in-on": [("D", 2), " Jan ", ("Y", 4), " at noon"],
+    "posted-on-prefix": ["posted on: ", ("D", 2), " May ", ("Y", 4)],
+    "weekday-mon": ["Mon"],
+}
+
+
+class sanitize_date_whitespace_invariance:
+    """C18, deductive part for the string sanitiser: for every skeleton family (layout literal, every
+    digit symbolic) and every white-space / trailing-colon rewriting w of the property's family,
+    `sanitize_date(w(s)) == sanitize_date(s)` as strings.  With the dataflow obligation
+    (`get_date_data` reads its string only through `sanitize_date` once the custom formats are out
+    of the way) this gives parse(w(s)) == parse(s) for all digit values of these layouts."""
+
+    name = "date.sanitize_date/whitespace-and-trailing-colon-invariance"
+    func = "dateparser.date.sanitize_date"
+    props = ["C18"]
+
+    @staticmethod
+    def cases(thorough=False):
+        out = []
+        for fam in WS_TEMPLATES:
+            for w in WS_REWRITINGS:
+                if w in ("double", "tab", "newline", "nbsp", "mixed", "nbsp-led-run") and not any(
+                        isinstance(p, str) and " " in p for p in WS_TEMPLATES[fam]):
+                    continue
+                out.append(dict(family=fam, rewriting=w))
+        return out
+
+    @staticmethod
+    def setup(inp, case):
+        from dateparser.date import sanitize_date
+        from pyvc.harness import build
+
+        tpl = list(WS_TEMPLATES[case["family"]])
+        s, f = build(inp, tpl)
+        # w(s) is re-assembled from s's own pieces, so both strings carry the same symbolic digits
+        pieces, cursor = [], 0
+        for p in tpl:
+            n = len(p) if isinstance(p, str) else p[1]
+            pieces.append(s[cursor:cursor + n])
+            cursor += n
+        marked = [p if isinstance(p, str) else "@%d@" % i for i, p in enumerate(tpl)]
+        t = ""
+        for p in WS_REWRITINGS[case["rewriting"]](marked):
+            if p.startswith("@") and p.endswith("@") and p[1:-1].isdigit():
+                t = t + pieces[int(p[1:-1])]
+            else:
+                t = t + p
+
+        def run(a, b):
+            return sanitize_date(a), sanitize_date(b)
+
+        return run, (s, t), {}, dict(f=f)
+
+    @staticmethod
+    def post(case, g, out):
+        if not out.ok:
+            return {"no-exception": False}
+        a, b = out.value
+        return {"no-exception": True, "same-sanitised-string": a == b}
+
+
+CONTRACTS.append(sanitize_date_whitespace_invariance)
